@@ -144,7 +144,10 @@ def oracle(scen, out, sweep=None):
         if root["variant"] in BAD and not (root["variant"] == "sig_nibble" and "key_subset" in tags):
             bad.append("accepted although the root layout is %s" % root["variant"])
         e = expiry_us(root.get("expires"))
-        if e is not None and e <= scen["now_us"]:
+        if isinstance(root.get("expires"), str) and not root["expires"].isascii():
+            bad.append("accepted although the expiry %r is not an ISO 8601 instant (digits outside ASCII): no expiry instant "
+                       "later than now can be established" % root["expires"])
+        elif e is not None and e <= scen["now_us"]:
             bad.append("accepted although the layout expired at %s and now is %+d us relative to that" % (root["expires"], scen["now_us"] - e))
     for t in ("no_keys", "extra_key", "other_key", "gpg_supply", "gpg_other"):
         if t in tags:
